@@ -6,7 +6,8 @@ V = Path(__file__).resolve().parent.parent
 EXTRA = {"R2C01a": ["C04"], "R2C01b": ["C05"], "R2C02b": ["C03"], "R2C03a": ["C01"], "R2C05a": ["C01"], "R2C06b": ["C05"], "R2C07a": ["C18"],
          "R2C18a": ["C07"], "R2C19a": ["C01", "C03"], "R2C12a": ["C01"], "R2C13a": ["C11"], "R2C10a": ["C01"], "C01b": ["C05"], "C06a": ["C05"], "C03b": ["C01"], "C12a": ["C09"], "C02b": ["C02"], "C06b": ["C02"], "C08b": ["C02"], "C11b": ["C03"],
          "R3C01b": ["C05"], "R3C06b": ["C05"], "R3C02a": ["C08"], "R3C16c": ["C16"], "R3C07c": ["C18"], "R3C18c": ["C18"], "R3C12b": ["C04"],
-         "R4C09a": ["C08"], "R4C07b": ["C19"], "R4C06a": ["C02"], "R4C06c": ["C02"], "R4C04b": ["C03"], "R4C19a": ["C08"], "R4C12a": ["C09"], "R4C03a": ["C04"], "R4C02a": ["C04"], "R4C01b": ["C04"]}
+         "R4C09a": ["C08"], "R4C07b": ["C19"], "R4C06a": ["C02"], "R4C06c": ["C02"], "R4C04b": ["C03"], "R4C19a": ["C08"], "R4C12a": ["C09"], "R4C03a": ["C04"], "R4C02a": ["C04"], "R4C01b": ["C04"],
+         "R5C10a": ["C18"], "R5C06a": ["C18"], "R5C01a": ["C03"], "R5C01b": ["C04"], "R5C13b": ["C12"], "R5C09b": ["C12"]}
 def run(sid, prop):
     p = subprocess.run([str(V / "tools/seedrun.sh"), sid, prop], capture_output=True, text=True)
     line = (p.stdout.strip().splitlines() or ["?"])[-1]
